@@ -118,9 +118,9 @@ chk('C11', 'exploration',
     '4 C11', 'world,director,lockset,runner')
 chk('C12', 'exploration',
     'Real semaphores vs a reference model over the complete reachable (model,real) state graph up to the length bound (exhaustive), '
-    'blocking acquirers as real threads against every release order under yield injection (quiescence = lost wake-up verdict), and a '
+    'blocking acquirers as real threads against every release order under yield injection (quiescence = lost wake-up verdict), a waiter that has to wait 5 s / 20 s of real time, and a '
     'behavioural capacity probe after end-to-end runs with faults/cancels.',
-    'Double release of a valid token is outside the statement; probe reaches executors through manager attributes.',
+    'Double release of a valid token is outside the statement; probe reaches executors through manager attributes; a wait that gives up only after more than 20 s is out of reach.',
     'reference-model differential + quiescence + capacity probe', '4 C12', 'model,watchdog,yieldinj,lockset,world,runner')
 chk('C16', 'exploration',
     'All delivery histories the download loop can produce up to the bound (exhaustive), random longer ones, and histories pushed by '
@@ -155,7 +155,7 @@ chk('C14', 'exploration',
     'request-log tiling oracle at API level', '4 C14', 'world,runner')
 chk('C15', 'exploration',
     'Exhaustive table: every allowed extra-argument name x method x mode (incl. failing multipart so the abort is seen) x front-end, '
-    'one real transfer per cell, captured keyword arguments (and the duplicates in the DEBUG log) compared with the installed botocore S3 model; all checksum-name '
+    'one real transfer per cell (also with empty values, and pairs of transfers with different arguments under one-preemption windows), captured keyword arguments (and the duplicates in the DEBUG log) compared with the installed botocore S3 model; all checksum-name '
     'subsets; all non-allowed names rejected before any request.',
     'Compared against botocore 1.43.x as installed; copy HeadObject judged by the mapped names only. Two findings (F10, F11b) are '
     'recorded as KNOWN-FINDING.', 'exhaustive argument-routing table vs service model', '4 C15', 'world,runner')
